@@ -242,6 +242,7 @@ func genShared(by map[string]*packages.Package, out string) {
 	}
 	// package-level variables written outside init
 	var written []string
+	var calls []string
 	var names []string
 	for n := range by {
 		names = append(names, n)
@@ -317,6 +318,28 @@ func genShared(by map[string]*packages.Package, out string) {
 								written = append(written, "&"+g+" in "+fn)
 							}
 						}
+					case *ast.CallExpr:
+						// a method invoked on a package-level variable may mutate it (shared hashers, buffers,
+						// pools, caches): every such call is listed unless the method has a value receiver
+						// on a non-reference type (which cannot change the variable)
+						if sel, ok := x.Fun.(*ast.SelectorExpr); ok {
+							if s := p.TypesInfo.Selections[sel]; s != nil && s.Kind() == types.MethodVal {
+								if g, ok := isGlobal(sel.X); ok {
+									mutating := true
+									if sig, ok := s.Obj().Type().(*types.Signature); ok && sig.Recv() != nil {
+										if _, ptr := sig.Recv().Type().(*types.Pointer); !ptr {
+											switch sig.Recv().Type().Underlying().(type) {
+											case *types.Basic, *types.Struct, *types.Array:
+												mutating = false
+											}
+										}
+									}
+									if mutating {
+										calls = append(calls, p.TypesInfo.Types[sel.X].Type.String()+" "+g+"."+sel.Sel.Name+" in "+fn)
+									}
+								}
+							}
+						}
 					}
 					return true
 				})
@@ -330,6 +353,15 @@ func genShared(by map[string]*packages.Package, out string) {
 	fmt.Fprintf(&sb, "/-- package-level variables examined -/\ndef globalVars : Nat := %d\n\n", nvars)
 	sb.WriteString("/-- package-level variables assigned, incremented or address-taken in a function body other than init -/\ndef writtenGlobals : List String := [")
 	for i, w := range written {
+		if i > 0 {
+			sb.WriteString(", ")
+		}
+		sb.WriteString(leanStr(w))
+	}
+	sb.WriteString("]\n\n")
+	sort.Strings(calls)
+	sb.WriteString("/-- methods (pointer / reference receivers) invoked on package-level variables outside init -/\ndef globalMethodCalls : List String := [")
+	for i, w := range calls {
 		if i > 0 {
 			sb.WriteString(", ")
 		}
